@@ -145,9 +145,19 @@ class Contract:
                 if k not in have:
                     have[k] = shp.fresh(st, k)
                 vals[f"g_{k}"] = have[k]
+        where = f"call-pre@{f.ref.qualname}:{(site or '').split(':')[-1]}"
+        for k, v in list(vals.items()):
+            # an Optional value handed to a parameter the contract declares as a plain int / bool (e.g. an element of a
+            # list of Optional[int]): decided here (a fork only if both cases are possible); None for such a
+            # parameter is outside the callee's verified domain -> the caller's obligation fails
+            if isinstance(v, V.SOpt) and isinstance(self.params.get(k), (S._Int, S._Bool)):
+                fv = st.force(v)
+                if fv is None:
+                    st.oblige(f"{ip.task.name}/{where}/{k}-is-not-None", False, "call-pre")
+                    raise PathEnd()
+                vals[k] = fv
         vals["old"] = View({k: v.snapshot() for k, v in vals.items() if isinstance(v, (LRef, DRef, SObj)) or hasattr(v, "py_version")})
         a = View(vals)
-        where = f"call-pre@{f.ref.qualname}:{(site or '').split(':')[-1]}"
         pre = self.requires(self_obj, a) if self_obj is not None else self.requires(a)
         if check_pre:
             st.oblige(f"{ip.task.name}/{where}", pre if isinstance(pre, (SBool, bool)) else mk_bool(V._zb(pre)), "call-pre")
